@@ -348,3 +348,59 @@ def posterior_mean_fill(c):
     fv = it.class_getattr(ctx, c.cls(NP), "_fill_value")
     want = tm.at([j]) + mk_sum(lambda k: (T.at([j, k]) * z3.If(cache.at([k]) == NANV, z3.RealVal(0), z3.RealVal(1))) * z3.If(cache.at([k]) == NANV, E.to_real(fv.t), cache.at([k])), n.t)
     c.prove("predictive_mean.fill.is_test_mean_plus_sum_over_non_missing_columns", z3.And(z3.BoolVal(len(res.dims) == 1), res.dims[0].size == s.t, res.at([j]) == want) if len(res.dims) == 1 else z3.BoolVal(False))
+
+
+@case("C16", clause="posterior_mean_fill", name="mean_cache_fill", expand=lambda ix: [(br,) for br in (0, 1)], replay=lambda *a: replay_nan(*a), functions=[f"{PS}._mean_cache"])
+def mean_cache_fill(c, br):
+    """fill, per batch element: the training system that is solved has the rows and columns of THAT element's missing entries zeroed off the diagonal
+    (diagonal kept, so the system decouples: the observed block is A[obs, obs], the missing block is diagonal), its right-hand side is y - m with the
+    missing entries replaced by the fill value, and the cache is NaN (or 0: either contributes nothing under exact_predictive_mean's contract above) at
+    that element's missing entries and the solution elsewhere -- hence the observed entries of the
+    cache are SOLVE(A[obs, obs], (y - m)[obs]), the deletion answer.  LinearOperator.solve is a callee contract.
+    IEEE fact assumed (the NaN model does not poison arithmetic): y - m is NaN exactly where y is (m finite)."""
+    it, ctx = c.it, c.ctx
+    nan_model(c)
+    n = c.size("n")
+    bs = [c.size(f"B{q}").t for q in range(br)]
+    from contracts.dist_spec import make_mvn
+    prior = make_mvn(c, "train_prior", bs, n.t)
+    y = sym_tensor("y", bs + [n.t])
+    M = sym_tensor("marginal_mean", bs + [n.t])
+    A = sym_tensor("A", bs + [n.t, n.t], is_linop=True)
+    A.meta["evaluate_kernel_is_self"] = True
+    marg = Stub("likelihood(train_prior)", attrs={"loc": M, "mean": M, "lazy_covariance_matrix": A}, isa=("MultivariateNormal",))
+    lik = Stub("likelihood", methods={"__call__": lambda *a, **k: marg}, isa=("Likelihood",))
+    SOL = sym_tensor("SOLVE_filled", bs + [n.t, z3.IntVal(1)])
+    solves = []
+
+    def solve(t, it_, ctx_, a, k):
+        solves.append((t, a[0]))
+        return SOL
+
+    it.optable["tensor_method.solve"] = solve
+    ci = it.index.get_class(PS)
+    o = VObj(ci, label="DefaultPredictionStrategy")
+    o.fields.update({"_train_shape": size_tuple(bs + [n.t]), "train_prior_dist": prior, "train_labels": y, "likelihood": lik,
+                     "train_inputs": VList([sym_tensor("X", bs + [n.t, c.size("d").t])]), "_last_test_train_covar": NONE})
+    c.ctx.classattrs[("gpytorch.settings.detach_test_caches", "_state")] = TRUE
+    b = [ivar("b") for _ in bs]
+    i, j = ivar("i"), ivar("j")
+    for v, s_ in zip(b + [i, j], bs + [n.t, n.t]):
+        c.assume(z3.And(v >= 0, v < s_))
+    for q in (i, j):
+        c.assume((y.at(b + [q]) - M.at(b + [q]) == NANV) == (y.at(b + [q]) == NANV), "IEEE arithmetic: y - m is NaN exactly where y is, for a finite marginal mean m (the NaN model does not poison arithmetic)")
+    cache = it.call(ctx, c.getattr(o, "_mean_cache"), [VStr("fill")], {})
+    ok = len(solves) == 1
+    c.prove("mean_cache.fill.one_solve", z3.BoolVal(ok))
+    if not ok:
+        return
+    mat, rhs = solves[0]
+    miss = lambda q: y.at(b + [q]) == NANV
+    okm = len(mat.dims) == br + 2
+    c.prove("mean_cache.fill.system_has_this_elements_missing_rows_and_columns_zeroed_off_the_diagonal",
+            mat.at_dims(b + [i, j]) == z3.If(i == j, A.at(b + [i, i]), z3.If(z3.Or(miss(i), miss(j)), z3.RealVal(0), A.at(b + [i, j]))) if okm else z3.BoolVal(False))
+    fv = it.class_getattr(ctx, c.cls(NP), "_fill_value")
+    okr = len(rhs.dims) == br + 2
+    c.prove("mean_cache.fill.rhs_is_y_minus_m_with_the_missing_entries_filled", z3.And(rhs.dims[-1].size == 1, rhs.at_dims(b + [i, z3.IntVal(0)]) == z3.If(miss(i), E.to_real(fv.t), y.at(b + [i]) - M.at(b + [i]))) if okr else z3.BoolVal(False))
+    okc = len(cache.dims) == br + 1
+    c.prove("mean_cache.fill.value", z3.And(cache.dims[-1].size == n.t, z3.If(miss(i), z3.Or(cache.at_dims(b + [i]) == NANV, cache.at_dims(b + [i]) == 0), cache.at_dims(b + [i]) == SOL.at(b + [i, z3.IntVal(0)]))) if okc else z3.BoolVal(False))
